@@ -303,6 +303,9 @@ def genOps3 : List (String × R String) := [
         let h0 ← Gen.address_init_script Crypto.sha256 Gen.OP_CODES py
         if h0 != h1 then throw PyErr.other
         let h2 ← Gen.segwit_script_to_hash Crypto.sha256 Gen.OP_CODES py
+        -- … and what P2wshAddress(script=…) stores (the translated constructor)
+        let w0 ← Gen.segwit_init_script Crypto.sha256 Gen.OP_CODES py "p2wshv0"
+        if w0 != ((0 : Int), h2) then throw PyErr.other
         if dat a != hex h1 || dat b != hex h2 then throw PyErr.other
         pure s!"{dat a} {dat b} {hex ab} {hex bb}"))),
   ("g:dig_v0", do
